@@ -45,8 +45,11 @@ func Rates(t *rapid.T, allowSub bool, maxBurstFactor int64) []Rate {
 		}
 		seen[p] = true
 		avg := int64(rapid.IntRange(1, 100).Draw(t, "average"))
-		if rapid.IntRange(0, 2).Draw(t, "smallAvg") == 0 {
+		switch rapid.IntRange(0, 5).Draw(t, "avgClass") {
+		case 0, 1:
 			avg = int64(rapid.IntRange(1, 5).Draw(t, "averageSmall"))
+		case 2: // high rates: a token every few microseconds ("any average")
+			avg = rapid.SampledFrom([]int64{1000, 3000, 5000, 20000, 100000}).Draw(t, "averageHigh")
 		}
 		burst := rapid.Int64Range(1, maxBurstFactor*avg).Draw(t, "burst")
 		if rapid.IntRange(0, 2).Draw(t, "smallBurst") == 0 {
